@@ -270,6 +270,23 @@ pub fn run_case(c: &Case) -> CaseOut {
             out.violate(Violation::new(format!("split {k}: first part ends with shape {}, second starts with {}", a.current_shape, b.input_shape), rec()).tag("kind", "split_shapes"));
             continue;
         }
+        // the same through the precondition entry point: the second part distilled on top of the first part's tree
+        out.add("real_executions", 1);
+        match catch(|| afftree_from_layers(c.d0, &lb, Some(ta.clone()))) {
+            Err(m) => {
+                out.violate(Violation::new(format!("split {k}: distilling the second part with the first part's tree as precondition panicked: {m}"), rec()).tag("kind", "split_precondition").tag("what", "panic"));
+                continue;
+            }
+            Ok(tp) => {
+                let sp = snap(&tp);
+                let o = refine(c.d0, &TreeSide(&sp), &TreeSide(&sf), &Config::default(), &mut out, &mut |_, _, _| {});
+                if let Some(m) = o.mismatches.first() {
+                    let mut r = rec();
+                    r["split"] = json!(k);
+                    out.violate(Violation::new(format!("split {k}: second part on top of the first part (precondition) differs from the whole: {}", mismatch_summary(m)), r).tag("kind", "split_precondition").tag("what", "function"));
+                }
+            }
+        }
         let (sa, sb) = (snap(&ta), snap(&tb));
         let pipe = PipeSide(vec![&sa, &sb]);
         let imp = TreeSide(&sf);
